@@ -441,6 +441,9 @@ class C09(Engine):
 		for which in (0, 1, 3):
 			p = pools.fixed_pool(which)
 			cases.append({'mode': 'monitor', 'pool': p, 'targets': list(p['modules'])})
+		ex = pools.example_pool()
+		cases.append({'mode': 'identity', 'pool': ex, 'module': 'example.json', 'schedule': [{'at': 50, 'root': 4000, 'max_depth': 3}, {'at': 900, 'root': 777, 'max_depth': 3, 'raise_after': 40}, {'at': 2000, 'root': 123, 'max_depth': 2}], 'outer_raise_after': 500})
+		cases.append({'mode': 'monitor', 'pool': ex, 'targets': ['example.json']})
 		from tranpsim.c07 import base_texts
 		base = base_texts(pool)
 		same_shape = ['a = 1 + 2\nprint(a)', 'b = 3 * 4\nprint(b)', 'c = 5\nd = c\nprint(c, d)', 'b = 3 * 4\nprint(b)']
